@@ -350,7 +350,8 @@ def run(tier):
                sample={"site": s.key(), "discharged by": method, "reason": why} if ok and method != "guard" else None, nontrivial=(method != "peg"))
     for m, n in sorted(methods.items()):
         rep.count("sites discharged by %s" % m, n)
-    rep.floor("panic-class sites enumerated", len(sites), 120)
+    # the release-like MIR has no overflow Asserts: about half the sites
+    rep.floor("panic-class sites enumerated", len(sites), 120 if P.facts.profile == "dev" else 60)
     recursion(P, rep, reach)
     loops(P, rep, reach, g)
     allocation(P, rep)
